@@ -118,6 +118,9 @@ func matrixCases() []caseSpec {
 		return step{kind: "create", slot: 0, typ: t, variant: "valid", quiet: true, hint: hint}
 	}
 	out = append(out,
+		// the counterparty restarts in its next revision at a low height; headers of the previous revision keep arriving
+		caseSpec{id: "revision/tendermint-restarts-low-in-the-next-revision", slots: 1, steps: []step{q(tTM, ""), {kind: "updates", slot: 0, n: 3}, {kind: "upgrade", slot: 0, typ: tTM, variant: "next-revision"}, {kind: "updates", slot: 0, n: 2}}},
+		caseSpec{id: "revision/tendermint-restarts-low-right-after-creation", slots: 1, steps: []step{q(tTM, ""), {kind: "upgrade", slot: 0, typ: tTM, variant: "next-revision"}, {kind: "updates", slot: 0, n: 1}, {kind: "upgrade", slot: 0, typ: tTM, variant: "later"}}},
 		caseSpec{id: "leftover/eth-heights-below-bsc", slots: 1, steps: []step{q(tETH, "low"), {kind: "toggle", slot: 0, typ: tBSC, variant: "valid", hint: "high"}}},
 		caseSpec{id: "leftover/bsc-heights-below-eth", slots: 1, steps: []step{q(tBSC, "low"), {kind: "toggle", slot: 0, typ: tETH, variant: "valid", hint: "high"}, {kind: "upgrade", slot: 0, typ: tETH, variant: "valid", hint: "high"}}},
 		caseSpec{id: "leftover/tss-then-bsc", slots: 1, steps: []step{q(tETH, ""), {kind: "toggle", slot: 0, typ: tTSS, variant: "valid"}, {kind: "toggle", slot: 0, typ: tBSC, variant: "valid"}}},
@@ -292,6 +295,10 @@ func (c *caseRun) step(st step) {
 			variant = "tracked-height"
 			in, err = e.trackedTM(c.rng, sl.in)
 			r.Count("tendermint_upgrades_to_a_height_the_client_already_tracks", 1)
+		case (variant == "next-revision" || variant == "later" && c.rng.Intn(4) == 0) && sl.exists && sl.typ == typ && typ == tTM && sl.in != nil && !sl.unusable && !sl.in.tmOldRev && sl.in.tmLatest > 4:
+			variant = "next-revision"
+			in, err = e.nextRevTM(c.rng, sl.in)
+			r.Count("tendermint_upgrades_into_the_next_revision_at_a_lower_height", 1)
 		case variant == "later" && sl.exists && sl.typ == typ && sl.in != nil && !sl.unusable:
 			in, err = e.laterInst(c.rng, sl.in)
 		case variant == "flawed":
@@ -300,7 +307,7 @@ func (c *caseRun) step(st step) {
 				variant = "valid"
 			}
 		default:
-			if variant == "later" || variant == "back-to-anchor" {
+			if variant == "later" || variant == "back-to-anchor" || variant == "next-revision" {
 				variant = "valid"
 			}
 			in, err = e.newInst(c.rng, typ, st.hint)
